@@ -39,20 +39,45 @@ def run_go(ctx, src, tag):
 
 
 def run_wa(ctx, harness, src, tag, deadline):
+    """-> (status, stdout lines, stderr text).  The harness streams the program's output; the deadline (seconds of
+    RUNNING, counted from the harness's "TIMING compile" line) is enforced here by killing the process, because a tight
+    loop in compiled wasm code cannot be interrupted from inside the harness."""
+    import selectors
     d = os.path.join(ctx.tmp, tag)
     os.makedirs(d, exist_ok=True)
     f = os.path.join(d, "prog.wa.go")
     with open(f, "w") as fh:
         fh.write(src)
-    try:
-        p = subprocess.run([harness, "run", f, str(deadline)], stdout=subprocess.PIPE, stderr=subprocess.PIPE, timeout=deadline + 1500)
-    except subprocess.TimeoutExpired:
-        return "deadline", [], "outer timeout (compiler did not finish)"
-    out = p.stdout.decode("utf-8", errors="replace").splitlines()
-    err = p.stderr.decode("utf-8", errors="replace")
-    m = re.search(r"STATUS: (.*)", err, re.S)
+    p = subprocess.Popen([harness, "run", f, str(deadline + 30)], stdout=subprocess.PIPE, stderr=subprocess.PIPE)
+    sel = selectors.DefaultSelector()
+    sel.register(p.stdout, selectors.EVENT_READ, "out")
+    sel.register(p.stderr, selectors.EVENT_READ, "err")
+    out, err = bytearray(), bytearray()
+    t0, run_start, killed, open_streams = time.time(), None, False, 2
+    while open_streams:
+        for key, _ in sel.select(timeout=1.0):
+            chunk = os.read(key.fileobj.fileno(), 1 << 16)
+            if not chunk:
+                sel.unregister(key.fileobj)
+                open_streams -= 1
+                continue
+            (out if key.data == "out" else err).extend(chunk)
+        now = time.time()
+        if run_start is None and b"TIMING compile" in err:
+            run_start = now
+        if not killed and ((run_start is not None and now - run_start > deadline) or now - t0 > deadline + 1500):
+            p.kill()
+            killed = True
+    p.wait()
+    outl = out.decode("utf-8", errors="replace").splitlines()
+    errt = err.decode("utf-8", errors="replace")
+    if killed:
+        if out and not out.endswith(b"\n") and outl:
+            outl = outl[:-1]                      # torn last line
+        return "deadline: killed after %ds of running" % deadline, outl, errt
+    m = re.search(r"STATUS: (.*)", errt, re.S)
     status = "ok" if p.returncode == 0 else (m.group(1).strip() if m else "exit %d" % p.returncode)
-    return status, out, err
+    return status, outl, errt
 
 
 TOKEN_OK = re.compile(r"^[-0-9a-zA-Z:,]+$")
